@@ -365,6 +365,9 @@ def _as_result(r):
 VALS = [-2, -1, 0, 0, 1, 2, 3, None, None, 0.5]
 
 
+_GRID = [12]
+
+
 def gen_operand(rng, kind, names_pool):
     if kind == 'scalar':
         return {'k': 'scalar', 'v': rng.choice([0, 1, 2, -1, 2.5, 0])}
@@ -372,10 +375,10 @@ def gen_operand(rng, kind, names_pool):
     if mode < 0.07:
         ts = []
     elif mode < 0.4:
-        a = rng.randrange(12); b = rng.randrange(a, 12)
+        a = rng.randrange(_GRID[0]); b = rng.randrange(a, _GRID[0])
         ts = list(range(a, b + 1))
     else:
-        ts = sorted(rng.sample(range(12), rng.randint(1, 12)))
+        ts = sorted(rng.sample(range(_GRID[0]), rng.randint(1, _GRID[0])))
     if kind == 'series':
         return {'k': 'series', 'ts': ts, 'v': [rng.choice(VALS) for _ in ts]}
     k = 1 if kind == 'frame1' else rng.choice([2, 3])
@@ -384,6 +387,7 @@ def gen_operand(rng, kind, names_pool):
 
 
 def gen_case(rng):
+    _GRID[0] = 12 if rng.random() > 0.03 else 150        # a few long series in every tier: any size-dependent path (fast joins, batched reductions) is reached
     op = rng.choice(['add', 'add', 'sub', 'mul', 'mul', 'div', 'div', 'pow', 'gt', 'ge', 'lt', 'le', 'min', 'max', 'df_sum', 'df_mean', 'df_count'])
     join = rng.choice(['ij', 'oj'])
     columns = rng.choice(['ij', 'oj'])
